@@ -79,6 +79,15 @@ def build_pool(tmp):
     shutil.copy(os.path.join(os.path.dirname(tc.__file__), 'geoschemfiles', 'tracerinfo.dat'), tmp)
     shutil.copy(os.path.join(os.path.dirname(tc.__file__), 'geoschemfiles', 'diaginfo.dat'), tmp)
     add('punch', 'bpch', 'bpch', open(tc.geoschemfiles_paths['bpch'], 'rb').read())
+    # an irregular punch file (the first diagnostic written once, the second at two times): the memory-mapped
+    # reader cannot map it, the master class falls back to the block-walking reader
+    fld = lambda s_: (1e-9 * (1 + np.arange(2 * 4 * 5) + s_)).reshape(2, 4, 5).astype('f4')
+    blk = lambda tr, t0, s_: dict(category='IJ-AVG-$', tracer=tr, unit='v/v', tau0=175343.0 + t0, tau1=175344.0 + t0,
+                                  reserved='', start=(1, 1, 1), data=fld(s_))
+    irr = rf.enc_bpch(dict(ftype='CTM bin 02', toptitle='GEOS-CHEM binary punch file v. 2.0', modelname='GEOS5_47L',
+                           modelres=(2.5, 2.0), halfpolar=1, center180=1,
+                           blocks=[[blk(1, 0., 0), blk(2, 0., 100)], [blk(2, 1., 200)]]))
+    add('irregular', 'bpch', 'bpch', irr)
     # the same punch file next to a tracerinfo.dat that lacks the line of one tracer it holds (supported: such
     # a tracer is presented under its number)
     gdir = os.path.join(tmp, 'gc_missing')
@@ -201,7 +210,7 @@ def events(pool):
     return ev
 
 
-REDUCED = ('gc_missing/punch11.bpch', 'gc_missing/punch11_noext', 'cuthdf.nc', 'cuthdf_noext', 'nc4.ncf', 'nc4_noext', 'probe.sonde', 'avg.uamiv', 'kv.vertical_diffusivity', 'hum.humidity', 'ict.ffi1001', 'nc3.nc', 'io.ioapi', 'punch.bpch',
+REDUCED = ('irregular.bpch', 'irregular_noext', 'gc_missing/punch11.bpch', 'gc_missing/punch11_noext', 'cuthdf.nc', 'cuthdf_noext', 'nc4.ncf', 'nc4_noext', 'probe.sonde', 'avg.uamiv', 'kv.vertical_diffusivity', 'hum.humidity', 'ict.ffi1001', 'nc3.nc', 'io.ioapi', 'punch.bpch',
            'ict_crlf.ffi1001', 'cut.humidity', 'cut.nc', 'cut.uamiv', 'kv_noext', 'nc3_noext', 'junk_noext',
            'shared<-uamiv', 'shared<-nc3')
 REDUCED_EXPLICIT = ('avg.uamiv', 'ict.ffi1001', 'hum.humidity', 'kv_noext', 'nc3_noext')
